@@ -17,6 +17,8 @@ CLAIMS = {
          "Lean 4 proofs of per-detector exact characterisations lifted by the walker theorem + differential correspondence + executable C/N oracle", "§7 C05, §8.1"),
  "C07": ("Lean 4 theorems: unsafe_erc20_operation and floating_pragma meet their specification in the C05 sense (exact set anywhere in the file); divide_before_multiply reports exactly the nodes in the relation DivideBeforeMultiply (operand chains as inductive relations; the code's loops are proved to decide them); unprotected_selfdestruct reports exactly the selfdestruct/suicide call sites in contract-level non-constructor public/external functions without an only-modifier and without a msg.sender-checking call (unprotectedSelfdestruct_exact), giving the MUST-NOT half in full and the MUST half for the call-based hypothesis (partial w.r.t. the mention-based wording, which the oracle evaluates). Model = code observed on generated files; oracles evaluated on the implementation's output.",
          "Lean 4 proofs (inductive chain relations, exact site characterisation) lifted by the walker theorem + differential correspondence + executable MUST/MUST-NOT oracle", "§7 C07, §8.3"),
+ "C06": ("Lean 4 theorems payableFunction_exact, privateConstant_exact, privateVars_exact, privateFunc_exact, constructorOrder_exact: for every tree a location is reported iff it is the report location of a declaration of the documented shape in a contract of the file; constructorOrder_local + mem_constructorOrderScan: the verdict on a constructor depends only on the function definitions that precede it in its own contract (a plain function before it), never on other contracts, libraries, interfaces or free functions. Model = code observed on generated multi-contract files (free functions, >256 functions, members in all orders); the oracle recomputes each expected set from the direct members of every contract and compares it with the implementation's output.",
+         "Lean 4 iff-characterisation proofs (list-scan invariant for constructor_order) + differential correspondence + executable expected-set oracle", "§7 C06, §8.2"),
 }
 
 def main():
